@@ -226,18 +226,40 @@ func genCase(t *rapid.T) Case {
 	case "btree":
 		c.IntUS = rapid.SampledFrom([]int{1, 1, 2, 5, 10, 50, 100, 300, 1000}).Draw(t, "interval_us")
 		c.BudUS = rapid.SampledFrom([]int{1, 5, 20, 50}).Draw(t, "budget_us")
-		c.Node = rapid.SampledFrom([]int{512, 4096}).Draw(t, "node")
-		c.Prefill = rapid.IntRange(0, 40).Draw(t, "prefill")
 		c.Loops = rapid.IntRange(1, 12).Draw(t, "loops")
-		fg := Thread{Role: "fg", Ops: []Op{{K: "enable", A: rapid.IntRange(0, 2).Draw(t, "scale"), P: pauseGen.Draw(t, "p")}}}
+		// Three classes. calm: incremental mode is on before the goroutines start and the foreground never empties
+		// the node below half, so none of the open findings' code paths run and any report is new. mutate: as calm
+		// but with underflow deletes / forced batches / lazy re-configuration (region of KF-C18-01). full: enable,
+		// stop and lazy on/off at any point (regions of KF-C18-01 and KF-C18-02).
+		class := rapid.SampledFrom([]string{"calm", "calm", "calm", "calm", "mutate", "mutate", "mutate", "full", "full", "full"}).Draw(t, "class")
+		var kinds []string
+		switch class {
+		case "calm":
+			c.PreEnable, c.Node, c.Prefill = true, 4096, 300
+			kinds = []string{"ins", "ins", "del", "del", "search", "stats", "stats", "prog", "prog", "isinc"}
+		case "mutate":
+			c.PreEnable, c.Node = true, rapid.SampledFrom([]int{512, 4096}).Draw(t, "node")
+			c.Prefill = rapid.IntRange(0, 40).Draw(t, "prefill")
+			kinds = []string{"ins", "ins", "del", "del", "del", "del", "search", "stats", "prog", "isinc", "force", "force", "lazyon"}
+		default:
+			c.Node = rapid.SampledFrom([]int{512, 4096}).Draw(t, "node")
+			c.Prefill = rapid.IntRange(0, 40).Draw(t, "prefill")
+			kinds = []string{"ins", "ins", "ins", "del", "del", "del", "del", "search", "stats", "stats", "prog", "prog", "isinc",
+				"stop", "enable", "enable", "force", "lazyon", "lazyoff"}
+		}
+		fg := Thread{Role: "fg"}
+		if !c.PreEnable {
+			fg.Ops = append(fg.Ops, Op{K: "enable", A: rapid.IntRange(0, 2).Draw(t, "scale"), P: pauseGen.Draw(t, "p")})
+		}
 		n := rapid.IntRange(6, 40).Draw(t, "nops")
 		for len(fg.Ops) < n {
-			k := rapid.SampledFrom([]string{"ins", "ins", "ins", "del", "del", "del", "del", "search", "stats", "stats", "prog", "prog", "isinc",
-				"stop", "enable", "enable", "force", "lazyon", "lazyoff"}).Draw(t, "k")
+			k := rapid.SampledFrom(kinds).Draw(t, "k")
 			op := Op{K: k, P: pauseGen.Draw(t, "p")}
 			switch k {
-			case "ins", "del", "search":
-				op.A = rapid.IntRange(0, 47).Draw(t, "name")
+			case "ins", "search":
+				op.A = rapid.IntRange(0, 399).Draw(t, "name")
+			case "del":
+				op.A = rapid.IntRange(0, 99).Draw(t, "name") // calm: at most 100 of 300 records can ever go, half capacity is 185
 			case "enable", "lazyon":
 				op.A = rapid.IntRange(0, 2).Draw(t, "scale")
 			}
@@ -247,7 +269,7 @@ func genCase(t *rapid.T) Case {
 			}
 		}
 		c.Threads = append(c.Threads, fg)
-		np := rapid.IntRange(1, 2).Draw(t, "npollers")
+		np := rapid.IntRange(1, 3).Draw(t, "npollers")
 		for i := 0; i < np; i++ {
 			c.Threads = append(c.Threads, genPoller(t, []string{"prog", "prog", "isinc"}))
 		}
@@ -271,16 +293,29 @@ func genCase(t *rapid.T) Case {
 	case "smart":
 		c.IntUS = rapid.SampledFrom([]int{1, 1, 3, 10, 50, 200, 1000}).Draw(t, "interval_us")
 		c.FileMB = rapid.SampledFrom([]int{1, 50, 200, 600, 2000}).Draw(t, "file_mb")
+		c.MinConf = rapid.SampledFrom([]int{0, 0, 30, 30, 70}).Draw(t, "min_conf")
+		c.StableUS = rapid.SampledFrom([]int{0, 0, 100, 30000000}).Draw(t, "stable_us")
 		c.Loops = rapid.IntRange(1, 6).Draw(t, "loops")
 		n := rapid.IntRange(2, 6).Draw(t, "n")
+		// Most programs keep Start/Stop in one goroutine (outside the region of KF-C18-04) and leave evaluation to the
+		// background goroutine (outside KF-C18-03); a fixed share goes inside each region.
+		multiLife := rapid.IntRange(0, 6).Draw(t, "multi_lifecycle") == 0
+		userEval := rapid.IntRange(0, 9).Draw(t, "user_eval") < 4
 		for i := 0; i < n; i++ {
 			th := Thread{Role: "user"}
 			no := rapid.IntRange(4, 30).Draw(t, "nops")
+			kinds := []string{"rec", "rec", "rec", "rec", "rec", "stats", "stats", "metrics", "mstr"}
+			if userEval {
+				kinds = append(kinds, "eval", "eval")
+			}
+			if i == 0 || multiLife {
+				kinds = append(kinds, "start", "stop")
+			}
 			if i == 0 {
 				th.Ops = append(th.Ops, Op{K: "start"})
 			}
 			for len(th.Ops) < no {
-				k := rapid.SampledFrom([]string{"rec", "rec", "rec", "rec", "rec", "eval", "eval", "stats", "metrics", "mstr", "start", "stop"}).Draw(t, "k")
+				k := rapid.SampledFrom(kinds).Draw(t, "k")
 				op := Op{K: k, P: pauseGen.Draw(t, "p")}
 				if k == "rec" {
 					op.A = rapid.SampledFrom([]int{0, 1, 1, 2, 2, 2}).Draw(t, "optype")
@@ -334,7 +369,7 @@ func execute(c Case, factor int) childResult {
 		cmd.Env = append(cmd.Env, e)
 	}
 	racePrefix := filepath.Join(dir, "race")
-	cmd.Env = append(cmd.Env, "GORACE=halt_on_error=0 history_size=5 log_path="+racePrefix, jobEnv+"="+jobPath)
+	cmd.Env = append(cmd.Env, "GORACE=halt_on_error=0 atexit_sleep_ms=0 history_size=5 log_path="+racePrefix, jobEnv+"="+jobPath)
 	cmd.Dir = dir
 	var errBuf limitedBuffer
 	cmd.Stdout = io.Discard
@@ -353,7 +388,11 @@ func execute(c Case, factor int) childResult {
 			res.out = &o
 		}
 	}
-	res.races = readRaceLogs(racePrefix)
+	limit := int64(-1)
+	if res.out != nil && res.out.Panic != nil {
+		limit = res.out.Panic.RaceLogBytes
+	}
+	res.races = readRaceLogs(racePrefix, limit)
 	return res
 }
 
@@ -385,12 +424,16 @@ func (c Case) labels() []string {
 	return []string{"kind=" + c.Kind, fmt.Sprintf("N=%d", len(c.Threads)), fmt.Sprintf("procs=%d", c.Procs)}
 }
 
-// hangID matches a confirmed hang against the open findings.
-func hangID(h *Hang) string {
-	return ""
-}
-
 func evaluate(c Case) evaluation {
+	t0 := time.Now()
+	defer func() {
+		if p := os.Getenv("VERIF_C18_DUMP"); p != "" {
+			if f, err := os.OpenFile(p+".times", os.O_APPEND|os.O_CREATE|os.O_WRONLY, 0o644); err == nil {
+				fmt.Fprintf(f, "%s %d %.3f\n", c.Kind, len(c.Threads), time.Since(t0).Seconds())
+				f.Close()
+			}
+		}
+	}()
 	ev := evaluation{labels: c.labels(), known: map[string]string{}}
 	if len(c.Threads) == 0 || c.Procs < 1 || c.Procs > 64 || len(c.Threads) > 16 {
 		ev.verdict = vt.Skipped("malformed case")
@@ -410,14 +453,14 @@ func evaluate(c Case) evaluation {
 		second := confirm(res)
 		if second.out != nil && second.out.Hang != nil {
 			h := second.out.Hang
-			d := fmt.Sprintf("%s did not return within %d ms (twice; thread %d, phase %s); goroutines inside the library: %v\n%s", h.Op,
-				map[bool]int{true: 30000, false: 90000}[strings.Contains(h.Op, "stop") || strings.Contains(h.Op, "close")], h.Thread, h.Phase, h.Frames, clip(h.Stacks, 2500))
+			d := fmt.Sprintf("%s did not return (twice: bounds %+v, then %+v; thread %d, phase %s); goroutines inside the library: %v\n%s", h.Op,
+				limitsFor(1), limitsFor(3), h.Thread, h.Phase, h.Frames, clip(h.Stacks, 2500))
 			if h.Phase == "seq" {
 				ev.verdict = vt.Skipped("sequential reference hangs: %s", d)
 				return ev
 			}
-			if id := hangID(h); id != "" && vt.IsOpen(id) {
-				ev.known[id] = d
+			if id := hangID(c, h); id != "" && vt.IsOpen(id) {
+				ev.known[id] = fmt.Sprintf("%s never returns; goroutines inside the library: %v", h.Op, h.Frames)
 			} else {
 				bad = append(bad, d)
 			}
@@ -459,6 +502,15 @@ func evaluate(c Case) evaluation {
 		}
 		for _, m := range out.Invariant {
 			bad = append(bad, "invariant: "+m)
+		}
+		if p := out.Panic; p != nil {
+			d := fmt.Sprintf("%s panicked under concurrency only (thread %d, %s phase): %s; innermost library frame %s\n%s", p.Op, p.Thread, p.Phase, p.Msg, p.Frame, clip(p.Stack, 2500))
+			if id := panicID(c, p); id != "" && vt.IsOpen(id) {
+				ev.known[id] = fmt.Sprintf("%s panics: %s", p.Frame, p.Msg)
+			} else {
+				bad = append(bad, d)
+			}
+			ev.labels = append(ev.labels, "panic")
 		}
 		if out.Leak != nil {
 			bad = append(bad, fmt.Sprintf("%d goroutine(s) outlive Close/Stop, inside the library at %v\n%s", out.Leak.Extra, out.Leak.Frames, clip(out.Leak.Stacks, 2500)))
@@ -504,7 +556,11 @@ func evaluate(c Case) evaluation {
 			ids = append(ids, id)
 		}
 		sort.Strings(ids)
-		ev.verdict = vt.KnownOr(ids[0], "%s", ev.known[ids[0]])
+		pick := ids[0]
+		if _, ok := ev.known[c.Expect]; ok {
+			pick = c.Expect
+		}
+		ev.verdict = vt.KnownOr(pick, "%s", ev.known[pick])
 		for _, id := range ids {
 			ev.labels = append(ev.labels, "known="+id)
 		}
@@ -524,10 +580,23 @@ func dumpEvaluation(c Case, races []RaceReport, out *Outcome, bad []string) {
 	for _, r := range races {
 		keys[r.Key] = true
 	}
-	line := map[string]any{"kind": c.Kind, "procs": c.Procs, "n": len(c.Threads), "races": sortedKeys(keys), "bad": len(bad)}
+	var badHeads []string
+	for _, b := range bad {
+		badHeads = append(badHeads, firstLine(b))
+	}
+	line := map[string]any{"kind": c.Kind, "procs": c.Procs, "n": len(c.Threads), "races": sortedKeys(keys), "bad": len(bad), "bad_heads": badHeads}
 	if out != nil {
 		line["overlap"], line["peak"], line["ticks"], line["ops"], line["nondet"] = out.Overlap, out.Peak, out.Ticks, out.OpsRun, out.Nondet
 		line["mismatch"], line["invariant"], line["notes"] = out.Mismatch, out.Invariant, out.Notes
+		if out.Hang != nil {
+			line["hang"] = fmt.Sprintf("%s/%s %v", out.Hang.Op, out.Hang.Phase, out.Hang.Frames)
+		}
+		if out.Panic != nil {
+			line["panic"] = fmt.Sprintf("%s/%s %s @ %s", out.Panic.Op, out.Panic.Phase, out.Panic.Msg, out.Panic.Frame)
+		}
+		if out.Leak != nil {
+			line["leak"] = fmt.Sprintf("%d %v", out.Leak.Extra, out.Leak.Frames)
+		}
 	}
 	b, _ := json.Marshal(line)
 	f, err := os.OpenFile(p, os.O_APPEND|os.O_CREATE|os.O_WRONLY, 0o644)
@@ -574,7 +643,7 @@ func run(c Case) vt.Verdict {
 		ev = evaluate(c)
 		if os.Getenv("VERIF_KF") == "1" {
 			// replay of a known finding: race detection depends on the schedule, so give the case a few chances
-			for i := 0; i < 8 && ev.verdict.Kind == vt.OK; i++ {
+			for i := 0; i < 8 && (ev.verdict.Kind == vt.OK || ev.verdict.Kind == vt.Known && c.Expect != "" && ev.verdict.ID != c.Expect); i++ {
 				ev = evaluate(c)
 			}
 		}
